@@ -1,5 +1,8 @@
 import OV.Model.C13Export
 import Std.Data.String.ToNat
+set_option linter.unusedSimpArgs false
+set_option linter.unnecessarySimpa false
+set_option linter.unusedVariables false
 /-! Helper lemmas for C13 (characters, clean-up, short-name mapper). -/
 namespace OV.C13
 
@@ -177,38 +180,26 @@ theorem short_label_inj {a b : Nat} (h : "v" ++ Nat.repr (a + 1) = "v" ++ Nat.re
   have := Nat.repr_inj.mp h3
   omega
 
-theorem translateVar_fresh_clean (o : Opts) (st : St) (v : String) (hr : o.rename = false)
-    (ha : st.attrRen = []) (hm : st.remaps = []) (hv : v ≠ "") :
-    translateVar o st v = (cleanup v, st) := by
-  unfold translateVar
-  have : (v == "") = false := by simpa using hv
-  simp only [this, Bool.false_eq_true, if_false, hm, lookupRemap, newRenamer, hr, ha, List.lookup]
+/-- no scope of `_name_remappings` maps anything -/
+def QuietRemaps (st : St) : Prop := ∀ v, lookupRemap st.remaps v = none
 
 theorem translateVar_fresh_short (o : Opts) (st : St) (v : String) (hr : o.rename = true)
-    (ha : st.attrRen = []) (hm : st.remaps = []) (hv : v ≠ "") :
-    translateVar o st v = ("v" ++ Nat.repr ((shortStep st.shortKeys (cleanup v)).1 + 1),
-        { st with shortKeys := (shortStep st.shortKeys (cleanup v)).2 }) := by
+    (ha : st.attrRen = []) (hm : QuietRemaps st) (hv : v ≠ "") :
+    translateVar o st v = ("v" ++ Nat.repr ((shortStep st.shortKeys v).1 + 1),
+        { st with shortKeys := (shortStep st.shortKeys v).2 }) := by
   unfold translateVar
   have : (v == "") = false := by simpa using hv
-  simp only [this, Bool.false_eq_true, if_false, hm, lookupRemap, newRenamer, hr, if_true, shortName, ha, List.lookup]
-
-theorem translateVars_fresh_clean (o : Opts) (hr : o.rename = false) :
-    ∀ (ns : List String) (st : St), st.attrRen = [] → st.remaps = [] → (∀ n ∈ ns, n ≠ "") →
-      translateVars o st ns = (ns.map cleanup, st)
-  | [], st, _, _, _ => rfl
-  | n :: ns, st, ha, hm, hne => by
-    simp only [translateVars, translateVar_fresh_clean o st n hr ha hm (hne n (by simp)),
-      translateVars_fresh_clean o hr ns st ha hm (fun x hx => hne x (by simp [hx])), List.map_cons]
+  simp only [this, Bool.false_eq_true, if_false, hm v, newRenamer, hr, if_true, shortName, ha, List.lookup]
 
 theorem translateVars_fresh_short (o : Opts) (hr : o.rename = true) :
-    ∀ (ns : List String) (st : St), st.attrRen = [] → st.remaps = [] → (∀ n ∈ ns, n ≠ "") →
+    ∀ (ns : List String) (st : St), st.attrRen = [] → QuietRemaps st → (∀ n ∈ ns, n ≠ "") →
       (translateVars o st ns).1 =
-        (shortRun st.shortKeys (ns.map cleanup)).1.map (fun k => "v" ++ Nat.repr (k + 1))
+        (shortRun st.shortKeys ns).1.map (fun k => "v" ++ Nat.repr (k + 1))
   | [], st, _, _, _ => rfl
   | n :: ns, st, ha, hm, hne => by
     simp only [translateVars, translateVar_fresh_short o st n hr ha hm (hne n (by simp)), List.map_cons, shortRun]
     have ih := translateVars_fresh_short o hr ns
-      { st with shortKeys := (shortStep st.shortKeys (cleanup n)).2 } ha hm (fun x hx => hne x (by simp [hx]))
+      { st with shortKeys := (shortStep st.shortKeys n).2 } ha hm (fun x hx => hne x (by simp [hx]))
     simp only [ih]
 
 /-! ## the exact collision relation of the clean-up -/
@@ -345,12 +336,10 @@ theorem translateGraph_error_of_body (o : Opts) (d : Nat) (m : ModelP)
   unfold exportModel translateGraph
   split
   · exact ⟨_, rfl⟩
-  · split
-    · exact ⟨_, rfl⟩
-    · obtain ⟨e, he⟩ := graphProg_error_of_body o d m m.funName
-        (if o.skipInit then 2 else 1) {} (h _)
-      simp only [he]
-      exact ⟨e, rfl⟩
+  · obtain ⟨e, he⟩ := graphProg_error_of_body o d m m.funName
+      (if o.skipInit then 2 else 1) {} (h _)
+    simp only [he]
+    exact ⟨e, rfl⟩
 
 theorem translateNode_scan (o : Opts) (ops : List (String × Nat)) (d indent : Nat) (n : Node) (st : St)
     (h : n.op = "Scan") : ∃ e, translateNode o ops d indent n st = .error e := by
@@ -404,5 +393,421 @@ theorem translatePlain_unsupported (o : Opts) (ops : List (String × Nat)) (n : 
       obtain ⟨e, he⟩ := translateAttrs_error_of_unsupported n.attrs k h
       simp only [he]
       exact ⟨_, rfl⟩
+
+
+/-! ## the unique-name mapper (fix da27432) -/
+
+
+
+
+
+theorem uniqCand_inj (c : String) {j k : Nat} (h : uniqCand c j = uniqCand c k) : j = k := by
+  unfold uniqCand at h
+  by_cases hj : j = 0 <;> by_cases hk : k = 0
+  · omega
+  · simp only [hj, hk, if_true, if_false] at h
+    have h1 := congrArg String.toList h
+    simp only [String.toList_append] at h1
+    have : ("_" : String).toList ++ (Nat.repr k).toList = [] := by
+      have h2 : c.toList ++ [] = c.toList ++ (("_" : String).toList ++ (Nat.repr k).toList) := by
+        simpa [List.append_assoc] using h1
+      exact (List.append_cancel_left h2).symm
+    simp at this
+  · simp only [hj, hk, if_true, if_false] at h
+    have h1 := congrArg String.toList h
+    simp only [String.toList_append] at h1
+    have : ("_" : String).toList ++ (Nat.repr j).toList = [] := by
+      have h2 : c.toList ++ (("_" : String).toList ++ (Nat.repr j).toList) = c.toList ++ [] := by
+        simpa [List.append_assoc] using h1
+      exact List.append_cancel_left h2
+    simp at this
+  · simp only [hj, hk, if_false] at h
+    have h1 := congrArg String.toList h
+    simp only [String.toList_append] at h1
+    have h2 := List.append_cancel_left h1
+    exact Nat.repr_inj.mp (String.toList_inj.mp h2)
+
+/-- the candidates `k, k+1, …, k+n-1` -/
+def cands (c : String) : Nat → Nat → List String
+  | _, 0 => []
+  | k, n + 1 => uniqCand c k :: cands c (k + 1) n
+
+theorem mem_cands {c : String} : ∀ {n k : Nat} {x : String}, x ∈ cands c k n → ∃ i, i < n ∧ x = uniqCand c (k + i)
+  | 0, _, _, h => by cases h
+  | n + 1, k, x, h => by
+    simp only [cands, List.mem_cons] at h
+    rcases h with h | h
+    · exact ⟨0, by omega, by simpa using h⟩
+    · obtain ⟨i, hi, hx⟩ := mem_cands h
+      exact ⟨i + 1, by omega, by rw [hx]; congr 1; omega⟩
+
+theorem cands_length (c : String) : ∀ (n k : Nat), (cands c k n).length = n
+  | 0, _ => rfl
+  | n + 1, k => by simp [cands, cands_length c n (k + 1)]
+
+theorem cands_nodup (c : String) : ∀ (n k : Nat), (cands c k n).Nodup
+  | 0, _ => List.nodup_nil
+  | n + 1, k => by
+    simp only [cands, List.nodup_cons]
+    refine ⟨?_, cands_nodup c n (k + 1)⟩
+    intro h
+    obtain ⟨i, _, hx⟩ := mem_cands h
+    have := uniqCand_inj c hx
+    omega
+
+theorem findFree_fail {c : String} {used : List String} : ∀ (fuel k : Nat),
+    findFree c used fuel k ∈ used → ∀ x ∈ cands c k (fuel + 1), x ∈ used
+  | 0, k, h => by
+    intro x hx
+    simp only [cands, List.mem_cons, List.not_mem_nil, or_false] at hx
+    subst hx; exact h
+  | fuel + 1, k, h => by
+    simp only [findFree] at h
+    by_cases hk : uniqCand c k ∈ used
+    · simp only [hk, if_true] at h
+      have ih := findFree_fail fuel (k + 1) h
+      intro x hx
+      simp only [cands, List.mem_cons] at hx
+      rcases hx with hx | hx
+      · subst hx; exact hk
+      · exact ih x (by simpa [cands] using hx)
+    · simp only [hk, if_false] at h
+
+/-- **the uniquifier's search always ends on a free name** -/
+theorem findFree_notin (c : String) (used : List String) (fuel : Nat) (hf : used.length ≤ fuel) :
+    findFree c used fuel 0 ∉ used := by
+  intro h
+  have hsub := findFree_fail fuel 0 h
+  have := List.Nodup.length_le_of_subset (cands_nodup c (fuel + 1) 0) hsub
+  rw [cands_length] at this
+  omega
+
+
+
+/-! ### the table of the unique-name mapper -/
+
+/-- `T` extends `u` (the mapper only ever appends) -/
+def Ext (u T : List (String × String)) : Prop := ∃ e, T = u ++ e
+
+theorem Ext.refl (u : List (String × String)) : Ext u u := ⟨[], (List.append_nil u).symm⟩
+theorem Ext.trans {a b c : List (String × String)} (h1 : Ext a b) (h2 : Ext b c) : Ext a c := by
+  obtain ⟨e1, rfl⟩ := h1; obtain ⟨e2, rfl⟩ := h2; exact ⟨e1 ++ e2, by rw [List.append_assoc]⟩
+
+theorem lookup_ext {u T : List (String × String)} (h : Ext u T) {k r : String} (hk : u.lookup k = some r) :
+    T.lookup k = some r := by
+  obtain ⟨e, rfl⟩ := h
+  rw [List.lookup_append, hk]; rfl
+
+theorem uniqStep_ext (u : List (String × String)) (n : String) : Ext u (uniqStep u n).2 := by
+  unfold uniqStep
+  cases u.lookup n with
+  | some r => exact Ext.refl u
+  | none => exact ⟨_, rfl⟩
+
+theorem uniqStep_lookup (u : List (String × String)) (n : String) :
+    (uniqStep u n).2.lookup n = some (uniqStep u n).1 := by
+  unfold uniqStep
+  cases h : u.lookup n with
+  | some r => simpa using h
+  | none => simp [List.lookup_append, h, List.lookup]
+
+theorem uniqReq_ext (u : List (String × String)) (v : String) : Ext u (uniqReq u v) := by
+  unfold uniqReq; split
+  · exact Ext.refl u
+  · exact uniqStep_ext u v
+
+theorem uniqRun_ext : ∀ (vs : List String) (u : List (String × String)), Ext u (uniqRun u vs)
+  | [], u => Ext.refl u
+  | v :: vs, u => (uniqReq_ext u v).trans (uniqRun_ext vs (uniqReq u v))
+
+theorem uniqRun_append (u : List (String × String)) (a b : List String) :
+    uniqRun u (a ++ b) = uniqRun (uniqRun u a) b := by
+  induction a generalizing u with
+  | nil => rfl
+  | cons v vs ih => simp only [List.cons_append, uniqRun, ih]
+
+/-- present: `v` is the empty name or has an entry -/
+def Present (T : List (String × String)) (v : String) : Prop := v = "" ∨ (T.lookup v).isSome = true
+
+theorem present_uniqReq (u : List (String × String)) (v : String) : Present (uniqReq u v) v := by
+  unfold Present uniqReq
+  by_cases hv : v = ""
+  · left; exact hv
+  · right; simp only [hv, if_false, uniqStep_lookup, Option.isSome_some]
+
+theorem present_ext {u T : List (String × String)} (h : Ext u T) {v : String} (hp : Present u v) : Present T v := by
+  rcases hp with hp | hp
+  · left; exact hp
+  · right
+    obtain ⟨r, hr⟩ := Option.isSome_iff_exists.mp hp
+    rw [lookup_ext h hr]; rfl
+
+theorem pyT_stable {u T : List (String × String)} (h : Ext u T) {v : String} (hp : Present u v) :
+    pyT T v = pyT u v := by
+  unfold pyT
+  rcases hp with hp | hp
+  · simp [hp]
+  · obtain ⟨r, hr⟩ := Option.isSome_iff_exists.mp hp
+    rw [lookup_ext h hr, hr]
+
+theorem present_uniqRun : ∀ (vs : List String) (u : List (String × String)) (v : String),
+    v ∈ vs → Present (uniqRun u vs) v
+  | [], _, _, h => by cases h
+  | w :: ws, u, v, h => by
+    simp only [uniqRun]
+    rcases List.mem_cons.mp h with h | h
+    · subst h; exact present_ext (uniqRun_ext ws _) (present_uniqReq u v)
+    · exact present_uniqRun ws _ v h
+
+/-- the printed name of a request -/
+theorem pyT_uniqReq_fst (u : List (String × String)) (v : String) (hv : v ≠ "") :
+    pyT (uniqReq u v) v = (uniqStep u v).1 := by
+  unfold pyT uniqReq
+  simp only [hv, if_false, uniqStep_lookup, Option.getD_some]
+
+
+
+/-! ### invariants of the table -/
+
+structure TblInv (u : List (String × String)) : Prop where
+  nodup : (u.map (·.2)).Nodup
+  nokw : ∀ p ∈ u, p.2.toList ∉ kwlistL
+  ne : ∀ p ∈ u, p.2 ≠ ""
+
+theorem tblInv_nil : TblInv [] :=
+  ⟨List.nodup_nil, fun p h => absurd h (List.not_mem_nil), fun p h => absurd h (List.not_mem_nil)⟩
+
+theorem toList_ne_nil' {s : String} (h : s ≠ "") : s.toList ≠ [] := by
+  intro h'
+  apply h
+  apply String.toList_inj.mp
+  rw [h']; rfl
+
+theorem findFree_is_cand (c : String) (used : List String) : ∀ (fuel k : Nat),
+    ∃ j, findFree c used fuel k = uniqCand c j
+  | 0, k => ⟨k, rfl⟩
+  | fuel + 1, k => by
+    simp only [findFree]
+    split
+    · exact findFree_is_cand c used fuel (k + 1)
+    · exact ⟨k, rfl⟩
+
+theorem uniqCand_good (n : String) (hn : n ≠ "") (j : Nat) :
+    (uniqCand (cleanup n) j).toList ∉ kwlistL ∧ uniqCand (cleanup n) j ≠ "" := by
+  have hid := cleanupL_ident n.toList (toList_ne_nil' hn)
+  unfold uniqCand
+  by_cases hj : j = 0
+  · simp only [hj, if_true]
+    constructor
+    · simpa [cleanup, String.toList_ofList] using hid.2
+    · intro h
+      have h1 := hid.1
+      have h2 : cleanupL n.toList = [] := by
+        have := congrArg String.toList h
+        simpa [cleanup, String.toList_ofList] using this
+      rw [h2] at h1
+      simp [isPyIdentL] at h1
+  · simp only [hj, if_false]
+    constructor
+    · intro hk
+      have := kw_no_us _ hk
+      apply this
+      simp [String.toList_append]
+    · intro h
+      have := congrArg String.toList h
+      simp [String.toList_append] at this
+
+theorem lookup_some_mem_vals : ∀ (T : List (String × String)) (k r : String),
+    T.lookup k = some r → r ∈ T.map (·.2)
+  | [], _, _, h => by simp [List.lookup] at h
+  | (a, b) :: T, k, r, h => by
+    simp only [List.lookup_cons] at h
+    by_cases hk : (k == a) = true
+    · simp only [hk] at h
+      simp only [List.map_cons, List.mem_cons]
+      left; simpa using h.symm
+    · have hk' : (k == a) = false := by simpa using hk
+      simp only [hk'] at h
+      simp only [List.map_cons, List.mem_cons]
+      right; exact lookup_some_mem_vals T k r h
+
+theorem lookup_some_mem : ∀ (T : List (String × String)) (k r : String),
+    T.lookup k = some r → (k, r) ∈ T
+  | [], _, _, h => by simp [List.lookup] at h
+  | (a, b) :: T, k, r, h => by
+    simp only [List.lookup_cons] at h
+    by_cases hk : (k == a) = true
+    · simp only [hk] at h
+      have : k = a := by simpa using hk
+      subst this
+      simp only [Option.some.injEq] at h
+      subst h
+      simp
+    · have hk' : (k == a) = false := by simpa using hk
+      simp only [hk'] at h
+      exact List.mem_cons_of_mem _ (lookup_some_mem T k r h)
+
+/-- **distinct keys have distinct values** in a table with duplicate-free values -/
+theorem lookup_val_inj : ∀ (T : List (String × String)), (T.map (·.2)).Nodup → ∀ (a b r : String),
+    T.lookup a = some r → T.lookup b = some r → a = b
+  | [], _, _, _, _, h, _ => by simp [List.lookup] at h
+  | (k, v) :: T, hnd, a, b, r, ha, hb => by
+    simp only [List.map_cons, List.nodup_cons] at hnd
+    simp only [List.lookup_cons] at ha hb
+    by_cases hak : (a == k) = true <;> by_cases hbk : (b == k) = true
+    · have h1 : a = k := by simpa using hak
+      have h2 : b = k := by simpa using hbk
+      rw [h1, h2]
+    · have hbk' : (b == k) = false := by simpa using hbk
+      simp only [hak, hbk'] at ha hb
+      have : v = r := by simpa using ha
+      subst this
+      exact absurd (lookup_some_mem_vals T b v hb) hnd.1
+    · have hak' : (a == k) = false := by simpa using hak
+      simp only [hak', hbk] at ha hb
+      have : v = r := by simpa using hb
+      subst this
+      exact absurd (lookup_some_mem_vals T a v ha) hnd.1
+    · have hak' : (a == k) = false := by simpa using hak
+      have hbk' : (b == k) = false := by simpa using hbk
+      simp only [hak', hbk'] at ha hb
+      exact lookup_val_inj T hnd.2 a b r ha hb
+
+theorem tblInv_uniqStep {u : List (String × String)} (h : TblInv u) (n : String) (hn : n ≠ "") :
+    TblInv (uniqStep u n).2 := by
+  unfold uniqStep
+  cases hl : u.lookup n with
+  | some r => exact h
+  | none =>
+    simp only
+    have hnot : findFree (cleanup n) (u.map (·.2)) (u.length + 1) 0 ∉ u.map (·.2) :=
+      findFree_notin _ _ _ (by simp)
+    obtain ⟨j, hj⟩ := findFree_is_cand (cleanup n) (u.map (·.2)) (u.length + 1) 0
+    have hg := uniqCand_good n hn j
+    refine ⟨?_, ?_, ?_⟩
+    · rw [List.map_append, List.nodup_append]
+      refine ⟨h.nodup, by simp, ?_⟩
+      intro a ha b hb
+      simp only [List.map_cons, List.map_nil, List.mem_singleton] at hb
+      subst hb
+      intro hab; subst hab; exact hnot ha
+    · intro p hp
+      rcases List.mem_append.mp hp with hp | hp
+      · exact h.nokw p hp
+      · simp only [List.mem_singleton] at hp
+        subst hp; simp only; rw [hj]; exact hg.1
+    · intro p hp
+      rcases List.mem_append.mp hp with hp | hp
+      · exact h.ne p hp
+      · simp only [List.mem_singleton] at hp
+        subst hp; simp only; rw [hj]; exact hg.2
+
+theorem tblInv_uniqReq {u : List (String × String)} (h : TblInv u) (v : String) : TblInv (uniqReq u v) := by
+  unfold uniqReq
+  by_cases hv : v = ""
+  · simp only [hv, if_true]; exact h
+  · simp only [hv, if_false]; exact tblInv_uniqStep h v hv
+
+theorem tblInv_uniqRun : ∀ (vs : List String) {u : List (String × String)}, TblInv u → TblInv (uniqRun u vs)
+  | [], _, h => h
+  | v :: vs, _, h => tblInv_uniqRun vs (tblInv_uniqReq h v)
+
+/-- printed names of present, non-empty names: non-empty, not `None`, and injective -/
+theorem pyT_ne_empty {T : List (String × String)} (h : TblInv T) {v : String} (hv : v ≠ "")
+    (hp : Present T v) : pyT T v ≠ "" := by
+  unfold pyT
+  rcases hp with hp | hp
+  · exact absurd hp hv
+  · obtain ⟨r, hr⟩ := Option.isSome_iff_exists.mp hp
+    simp only [hv, if_false, hr, Option.getD_some]
+    exact h.ne _ (lookup_some_mem T v r hr)
+
+theorem pyT_ne_None {T : List (String × String)} (h : TblInv T) {v : String} (hv : v ≠ "")
+    (hp : Present T v) : pyT T v ≠ "None" := by
+  unfold pyT
+  rcases hp with hp | hp
+  · exact absurd hp hv
+  · obtain ⟨r, hr⟩ := Option.isSome_iff_exists.mp hp
+    simp only [hv, if_false, hr, Option.getD_some]
+    intro h'
+    have := h.nokw _ (lookup_some_mem T v r hr)
+    apply this
+    simp only [h']; decide
+
+theorem pyT_inj {T : List (String × String)} (h : TblInv T) {a b : String} (ha : a ≠ "") (hb : b ≠ "")
+    (hpa : Present T a) (hpb : Present T b) (he : pyT T a = pyT T b) : a = b := by
+  unfold pyT at he
+  rcases hpa with hpa | hpa
+  · exact absurd hpa ha
+  rcases hpb with hpb | hpb
+  · exact absurd hpb hb
+  obtain ⟨r, hr⟩ := Option.isSome_iff_exists.mp hpa
+  obtain ⟨r', hr'⟩ := Option.isSome_iff_exists.mp hpb
+  simp only [ha, hb, if_false, hr, hr', Option.getD_some] at he
+  subst he
+  exact lookup_val_inj T h.nodup a b r hr hr'
+
+
+
+/-! ### the renamer of `rename=False` in a state without attribute parameters, remappings, inlined constants -/
+
+structure Plain (st : St) : Prop where
+  attr : st.attrRen = []
+  remap : QuietRemaps st
+  consts : st.constants = []
+
+theorem plain_uniq {st : St} (h : Plain st) (T : List (String × String)) : Plain { st with uniq := T } :=
+  ⟨h.attr, h.remap, h.consts⟩
+
+theorem translateVar_uniq (o : Opts) (hr : o.rename = false) (st : St) (hq : Plain st) (v : String) :
+    translateVar o st v = (pyT (uniqReq st.uniq v) v, { st with uniq := uniqReq st.uniq v }) := by
+  unfold translateVar
+  by_cases hv : v = ""
+  · subst hv
+    simp [pyT, uniqReq]
+  · have : (v == "") = false := by simpa using hv
+    simp only [this, Bool.false_eq_true, if_false, hq.remap v, newRenamer, hr, uniqueName, hq.attr, List.lookup,
+      pyT_uniqReq_fst st.uniq v hv]
+    simp only [uniqReq, hv, if_false]
+
+theorem translateVarRef_uniq (o : Opts) (hr : o.rename = false) (st : St) (hq : Plain st) (v : String) :
+    translateVarRef o st v = (pyT (uniqReq st.uniq v) v, { st with uniq := uniqReq st.uniq v }) := by
+  unfold translateVarRef
+  simp only [hq.consts, List.lookup, translateVar_uniq o hr st hq v]
+
+theorem translateVars_uniq (o : Opts) (hr : o.rename = false) :
+    ∀ (vs : List String) (st : St), Plain st →
+      translateVars o st vs = (vs.map (pyT (uniqRun st.uniq vs)), { st with uniq := uniqRun st.uniq vs })
+  | [], st, _ => rfl
+  | v :: vs, st, hq => by
+    have ih := translateVars_uniq o hr vs { st with uniq := uniqReq st.uniq v } (plain_uniq hq _)
+    simp only [translateVars, translateVar_uniq o hr st hq v, ih, List.map_cons, uniqRun]
+    have := pyT_stable (uniqRun_ext vs (uniqReq st.uniq v)) (present_uniqReq st.uniq v)
+    rw [this]
+
+theorem translateVarRefs_uniq (o : Opts) (hr : o.rename = false) :
+    ∀ (vs : List String) (st : St), Plain st →
+      translateVarRefs o st vs = (vs.map (pyT (uniqRun st.uniq vs)), { st with uniq := uniqRun st.uniq vs })
+  | [], st, _ => rfl
+  | v :: vs, st, hq => by
+    have ih := translateVarRefs_uniq o hr vs { st with uniq := uniqReq st.uniq v } (plain_uniq hq _)
+    simp only [translateVarRefs, translateVarRef_uniq o hr st hq v, ih, List.map_cons, uniqRun]
+    have := pyT_stable (uniqRun_ext vs (uniqReq st.uniq v)) (present_uniqReq st.uniq v)
+    rw [this]
+
+theorem outNames_uniq (o : Opts) (hr : o.rename = false) :
+    ∀ (outs : List String) (i : Nat) (st : St), Plain st → (∀ x ∈ outs, x ≠ "") →
+      outNames o st i outs = (outs.map (pyT (uniqRun st.uniq outs)), { st with uniq := uniqRun st.uniq outs })
+  | [], _, st, _, _ => rfl
+  | x :: xs, i, st, hq, h => by
+    have hx : (x == "") = false := by simpa using h x (by simp)
+    have ih := outNames_uniq o hr xs (i + 1) { st with uniq := uniqReq st.uniq x } (plain_uniq hq _)
+      (fun y hy => h y (by simp [hy]))
+    simp only [outNames, hx, Bool.false_eq_true, if_false, translateVar_uniq o hr st hq x, ih, List.map_cons, uniqRun]
+    have := pyT_stable (uniqRun_ext xs (uniqReq st.uniq x)) (present_uniqReq st.uniq x)
+    rw [this]
+
+
+theorem plain_empty : Plain ({} : St) := ⟨rfl, fun _ => rfl, rfl⟩
 
 end OV.C13
